@@ -1263,4 +1263,5 @@ package lang
 //@   assert[C04] children-get-the-extended-path: arg2 && len(arg1) == len(rootValues) + 1 && arg1[len(rootValues)] == v && (forall k int :: 0 <= k && k < len(rootValues) ==> arg1[k] == rootValues[k]) @ Value.toGoValueInterval
 //@   loop 0 invariant no-ancestor-so-far: !$faulted && (forall k int :: 0 <= k && k <= rangeindex ==> !sameContainer(rootValues[k], v))
 //@   loop 1 invariant building-list: !$faulted && fresh(array) && array != nil && len(array) == rangeindex + 1
-//@   loop 2 invariant building-map: !$faulted && obj != nil && fresh(obj)
+//@   loop 2 invariant collecting-keys: !$faulted && obj != nil && fresh(obj)
+//@   loop 3 invariant[C10] building-map-in-sorted-key-order: !$faulted && obj != nil && fresh(obj) && (forall i int, j int :: 0 <= i && i < j && j < len(keys) ==> scmpS(keys[i], keys[j]) <= 0)
